@@ -7,8 +7,11 @@ import (
 	"os"
 	"path/filepath"
 	"strings"
+	"time"
 
 	"github.com/wrgl/wrgl/pkg/local"
+	"github.com/wrgl/wrgl/pkg/objects"
+	"github.com/wrgl/wrgl/pkg/ref"
 )
 
 func c01CLI(spec *TableSpec) (*ingestInput, Res) {
@@ -91,4 +94,91 @@ func cliSafe(spec *TableSpec) bool {
 		}
 	}
 	return true
+}
+
+
+// c01CLIFile: commit from the branch's configured file (`--set-file`), then edit the file within
+// the same second as the cached temporary commit (its time is stored to the second) and commit
+// again: the edit must be committed. Returns the exported rows after the last commit.
+func c01CLIFile(spec, edited *TableSpec, offsetMs int) (*ingestInput, Res) {
+	csvBytes := edited.CSV(0)
+	hdr, rows, err := rereadCSV(csvBytes, 0)
+	in := &ingestInput{PK: edited.PKIdx(), RunSize: 0, Workers: 1, Spec: edited}
+	if err != nil {
+		return in, Err("csv-reread")
+	}
+	in.Columns = hxRow(hdr)
+	in.Rows = hxRows(rows)
+	root, err := os.MkdirTemp(privateTmp(), "cfile-")
+	if err != nil {
+		return in, Err("tmpdir")
+	}
+	defer os.RemoveAll(root)
+	os.Setenv("XDG_CONFIG_HOME", filepath.Join(root, "xdg"))
+	os.Setenv("HOME", root)
+	res := Guard(func() Res {
+		dir := filepath.Join(root, "repo", ".wrgl")
+		os.MkdirAll(filepath.Join(root, "repo"), 0755)
+		rd, err := local.NewRepoDir(dir, "")
+		if err != nil {
+			return Err("repodir")
+		}
+		if err := rd.Init(); err != nil {
+			return Err("init")
+		}
+		rd.Close()
+		for _, a := range [][]string{{"config", "set", "user.email", "u@example.com"}, {"config", "set", "user.name", "U"}} {
+			if out, err := cli(dir, a...); err != nil {
+				return Res{"res": "err", "kind": "setup:" + out + err.Error()}
+			}
+		}
+		fp := filepath.Join(root, "branch.csv")
+		os.WriteFile(fp, spec.CSV(0), 0644)
+		if out, err := cli(dir, "commit", "main", fp, "first", "-n", "1", "-p", strings.Join(spec.PK, ","), "--set-file", "--set-primary-key"); err != nil {
+			return Res{"res": "err", "kind": "commit1:" + out + ":" + err.Error()}
+		}
+		// nothing changed: leaves the cached temporary commit main-tmp
+		cli(dir, "commit", "main", "second", "-n", "1")
+		var tmpTime time.Time
+		func() {
+			rd, err := local.NewRepoDir(dir, "")
+			if err != nil {
+				return
+			}
+			defer rd.Close()
+			db, err := rd.OpenObjectsStore()
+			if err != nil {
+				return
+			}
+			defer db.Close()
+			if sum, err := ref.GetHead(rd.OpenRefStore(), "main-tmp"); err == nil {
+				if c, err := objects.GetCommit(db, sum); err == nil {
+					tmpTime = c.Time
+				}
+			}
+		}()
+		if tmpTime.IsZero() {
+			return Err("no-temp-commit")
+		}
+		os.WriteFile(fp, csvBytes, 0644)
+		mt := tmpTime.Add(time.Duration(offsetMs) * time.Millisecond)
+		os.Chtimes(fp, mt, mt)
+		if out, err := cli(dir, "commit", "main", "third", "-n", "1"); err != nil {
+			return Res{"res": "err", "kind": "commit3:" + out + ":" + err.Error()}
+		}
+		out, err := cli(dir, "export", "main")
+		if err != nil {
+			return Res{"res": "err", "kind": "export:" + out + ":" + err.Error()}
+		}
+		ehdr, erows, err := rereadCSV([]byte(out), 0)
+		if err != nil {
+			return Err("export-not-csv")
+		}
+		er := hxRows(erows)
+		if er == nil {
+			er = [][]string{}
+		}
+		return Ok(map[string]interface{}{"columns": hxRow(ehdr), "rows": er})
+	})
+	return in, res
 }
